@@ -1,6 +1,7 @@
 package rules
 
 import (
+	"go/constant"
 	"go/token"
 	"go/types"
 
@@ -650,6 +651,129 @@ func c17(c *core.Ctx) {
 			}
 		}
 		c.Exactly("merkle-leaves/methods", n, 3)
+	})
+
+	c.Clause("C17.7", "the root is the root of the current content: every successful exit of Trie.Hash and of Trie.Commit is preceded by hashRoot over the trie's own root node; a remembered root is accepted only as a memo that every write of Trie.root drops")
+	c.Run("root-of-current-content", func() {
+		hr := c.Method(tr+".Trie", "hashRoot")
+		rootF := c.FieldVar(tr+".Trie", "root")
+		// re-installing the node hashRoot handed back (the same content with its hashes cached) is not a content write
+		// ... and neither is the read path's root with its hash nodes resolved from the database (tryGet returns the node it was given,
+		// loaded; confirmed by reading)
+		tg := c.Method(tr+".Trie", "tryGet")
+		same := func(st *ssa.Store) bool {
+			sl := core.SliceShallow(st.Val)
+			return core.SliceHasCall(sl, hr) || core.SliceHasCall(sl, tg)
+		}
+		for _, name := range []string{"Hash", "Commit"} {
+			fn := c.Fn(tr + ".Trie." + name)
+			computedOrMemo(c, "Trie."+name+":hashRoot-or-valid-memo", fn, hr, []*types.Var{rootF}, same)
+		}
+		hrf := c.Fn(tr + ".Trie.hashRoot")
+		ok := false
+		for _, ci := range core.AllCalls(hrf) {
+			if o := core.CalleeObj(ci); o != nil && o.Name() == "hash" {
+				a := ci.Common().Args
+				for _, x := range a {
+					if core.SliceHasField(core.Slice(x), rootF) {
+						ok = true
+					}
+				}
+			}
+		}
+		c.Check("hashRoot:hashes-Trie.root", "value-flow", ok, hrf.Pos(), "hashRoot hashes the trie's own root node")
+	})
+
+	c.Clause("C17.8", "values are embedded in their node, never replaced by their hash: in hasher.hashChildren the recursive hash is applied to a short node's child only when it is not a valueNode, and to a branch node's children only at the 16 nibble positions (the 17th slot holds the value and is copied as it is)")
+	c.Run("values-not-hashed", func() {
+		hc := c.Fn(tr + ".hasher.hashChildren")
+		hashM := c.Method(tr+".hasher", "hash")
+		childrenF := c.FieldVar(tr+".fullNode", "Children")
+		valF := c.FieldVar(tr+".shortNode", "Val")
+		valueNode := c.Named(tr + ".valueNode")
+		calls := core.CallsIn(hc, hashM)
+		c.Floor("hashChildren/recursive-hash-calls", len(calls), 2)
+		seq := 0
+		for _, ci := range calls {
+			a := ci.Common().Args
+			if len(a) < 2 {
+				continue
+			}
+			arg := a[1]
+			seq++
+			key := "hashChildren:hash#" + string(rune('a'+seq-1))
+			// which slot does the node come from?
+			var idx ssa.Value
+			fromVal := false
+			for v := range core.SliceShallow(arg) {
+				switch x := v.(type) {
+				case *ssa.IndexAddr:
+					if core.FieldOf(x.X) == childrenF {
+						idx = x.Index
+					}
+				case *ssa.Index:
+					idx = x.Index
+				case *ssa.FieldAddr:
+					if core.FieldOf(x) == valF {
+						fromVal = true
+					}
+				case *ssa.Next, *ssa.Range:
+					idx = v // a range loop over the whole array: the index is not bounded below 17
+				}
+			}
+			switch {
+			case idx != nil:
+				// bounded by a dominating `idx < K` with K ≤ 16 (the for condition), or a constant ≤ 15
+				ok := false
+				if k, isK := idx.(*ssa.Const); isK && k.Value != nil {
+					if kv, exact := constant.Int64Val(k.Value); exact && kv >= 0 && kv <= 15 {
+						ok = true
+					}
+				}
+				for _, b := range hc.Blocks {
+					ifi := ifOf(b)
+					if ifi == nil || !b.Dominates(ci.Block()) || b == ci.Block() {
+						continue
+					}
+					cmp, isCmp := ifi.Cond.(*ssa.BinOp)
+					if !isCmp || cmp.X != idx {
+						continue
+					}
+					k, isK := cmp.Y.(*ssa.Const)
+					if !isK || k.Value == nil {
+						continue
+					}
+					kv, _ := constant.Int64Val(k.Value)
+					if ((cmp.Op == token.LSS && kv <= 16) || (cmp.Op == token.LEQ && kv <= 15)) && !core.CanReach(b.Succs[1], ci.Block(), b) {
+						ok = true
+					}
+				}
+				c.Check(key+":nibble-positions-only", "bounds", ok, ci.Pos(), "the recursive hash of a branch node's child is applied at index < 16 only; the value slot (index 16) must not be hashed (a value of 32 bytes or more would be replaced by its hash)")
+			case fromVal:
+				// on the edge where the child is NOT a valueNode
+				ok := false
+				for _, b := range hc.Blocks {
+					ifi := ifOf(b)
+					if ifi == nil || !b.Dominates(ci.Block()) || b == ci.Block() {
+						continue
+					}
+					ex, isEx := ifi.Cond.(*ssa.Extract)
+					if !isEx || ex.Index != 1 {
+						continue
+					}
+					ta, isTa := ex.Tuple.(*ssa.TypeAssert)
+					if !isTa || !ta.CommaOk || !types.Identical(ta.AssertedType, valueNode) {
+						continue
+					}
+					if !core.CanReach(b.Succs[0], ci.Block(), b) {
+						ok = true
+					}
+				}
+				c.Check(key+":not-a-valueNode", "guarded-action", ok, ci.Pos(), "the recursive hash of a short node's child runs only on the branch where the child is not a valueNode")
+			default:
+				c.Check(key+":source-known", "value-flow", false, ci.Pos(), "the node handed to the recursive hash is neither a branch node's child nor a short node's Val")
+			}
+		}
 	})
 
 	c.Clause("C17.6", "a Merkle proof is judged against the root the caller supplies: every return of merkle.Verify that can be true compares the hash computed from the target and the path with the root parameter")
